@@ -8,7 +8,8 @@ CFG = {'streams': [{'name': 'C06',
                             'model accepts, 4 = implementation accepted a file the model rejects, 5 = both accept but the checked ASTs differ '
                             '(capture indices / quantifier / full-match index / anything else changed), 6 = the text of UnusedCaptures differs '
                             '(names, order, separator), 7 = implementation panicked, 8 = model panics (tables inconsistent) but the implementation '
-                            'does not'}],
+                            'does not',
+              'model_only_codes': [6]}],
  'rule': 'stream C06 = 1/5 generated programs as they are (gen::gen_program under 6 option mixes: full; no scoped variables; no scan/stdlib; depth 4 '
          'and up to 7 stanzas; no shorthands/globals; shallow) + 4/5 SINGLE-FAULT programs: a generated program that File::from_str accepts, with '
          'exactly one entry of the catalogue injected by text (the generator is line-oriented) before a random statement or at the end of a random '
@@ -19,9 +20,9 @@ CFG = {'streams': [{'name': 'C06',
          'nested comprehension), set_global, dup_global (any quantifier/default, before or after the original), unused_capture (1-3 extra captures '
          'from a pool with `_`-prefixed names, or a renamed capture; all-underscore => accepted), undef_capture (@nope), nonlocal_source (a scoped '
          'read or a var, optionally after set, reaching scan/if/elif/2nd condition/some/none/for/list-/set-comprehension through list and set '
-         'literals, calls, comprehension elements, scoped reads and let chains), some_none_nonopt (literals, calls, one/list captures, let '
-         'chains), for_nonlist (literals, one/optional captures, calls, let chains; for and both comprehensions), nullable_regex (10 patterns; first '
-         'or second arm; with a later violation inside the arm), benign neighbours that must stay accepted (shadowing in an inner block, set of an '
+         'literals, calls, comprehension elements, scoped reads and let chains), some_none_nonopt (literals, calls, one/list captures, let chains), '
+         'for_nonlist (literals, one/optional captures, calls, let chains; for and both comprehensions), nullable_regex (10 patterns; first or '
+         'second arm; with a later violation inside the arm), benign neighbours that must stay accepted (shadowing in an inner block, set of an '
          'outer var from two blocks down, \\b regexes, for over a loop variable, same name in sibling arms, some on a loop variable, comprehension '
          'variable shadowing a local, repeated scoped declarations). Faulty expressions sit in 12 statement carriers (print, let, var, attr, edge '
          'attr, edge, set, if, for, scoped let, node scope) and 0-2 expression contexts (list, set, call, scoped read, comprehension element or '
@@ -40,25 +41,24 @@ CFG = {'streams': [{'name': 'C06',
                 'consistency => no panic), local_is_pure_partial + env_inv_reachable + set_needs_mutable (a local expression reads no scoped '
                 'variable and only globals or immutable locals that are themselves judged local; that invariant holds in every reachable '
                 'environment; set only succeeds on mutable bindings). Correspondence: every case compares variant, location, UnusedCaptures text '
-                'and, on Ok, the complete checked AST against the real checker run on the real parser output with the real queries\' tables.',
+                "and, on Ok, the complete checked AST against the real checker run on the real parser output with the real queries' tables.",
  'assumptions': ['tree-sitter Query is an external: the model receives capture_names() of every stanza query and of the merged file query and '
-                 'capture_quantifiers(i) per pattern, dumped from the real Query objects of each case; capture_index_for_name(n) = position of n '
-                 'in capture_names()',
+                 'capture_quantifiers(i) per pattern, dumped from the real Query objects of each case; capture_index_for_name(n) = position of n in '
+                 'capture_names()',
                  'the regex crate is an external: `regex.captures("").is_some()` per scan arm is dumped from the real Regex of each case',
-                 'the AST given to the model is the real parser\'s output (public fields of ast::File after File::parse, dumped by harness/src/dump.rs); '
-                 'parsing itself is C07',
+                 "the AST given to the model is the real parser's output (public fields of ast::File after File::parse, dumped by "
+                 'harness/src/dump.rs); parsing itself is C07',
                  'CheckError is read through its Debug text (the type is private): variant name, last `Location { row, column }`, the string of '
                  'UnusedCaptures',
                  'HashSet iteration order is the explicit parameter `order` (any permutation); check_file uses the identity and '
                  'check_deterministic_names shows the choice is irrelevant',
-                 'no_panic_check assumes tables_consistent (one name table and one quantifier row per stanza, rows as long as the file capture '
-                 'list, every stanza capture name and the full-match name known to the file query) - C03 assumption A1; the harness dumps the '
-                 'tables as they are, a violation would show as verdict 7/8',
+                 'no_panic_check assumes tables_consistent (one name table and one quantifier row per stanza, rows as long as the file capture list, '
+                 'every stanza capture name and the full-match name known to the file query) - C03 assumption A1; the harness dumps the tables as '
+                 'they are, a violation would show as verdict 7/8',
                  'static shape Zero (a capture name the stanza pattern does not contain) is treated as neither optional nor list, as the '
                  'implementation does; it cannot arise for a capture that resolves in the stanza query under C03 A2'],
- 'partial': ['local_is_pure (semantic form: the value of a checker-local expression does not depend on the scoped store or on mutable locals) is '
-             'not proved: it needs the interpreter models; proved instead: local_is_pure_partial (syntactic core), env_inv_reachable, '
-             'set_needs_mutable. Transitivity through let-bindings is carried by the is_local bit of the binding, not re-derived from the '
-             'initialiser.',
+ 'partial': ['local_is_pure (semantic form: the value of a checker-local expression does not depend on the scoped store or on mutable locals) is not '
+             'proved: it needs the interpreter models; proved instead: local_is_pure_partial (syntactic core), env_inv_reachable, set_needs_mutable. '
+             'Transitivity through let-bindings is carried by the is_local bit of the binding, not re-derived from the initialiser.',
              'shorthand bodies are outside the theorems because the implementation does not check them (known finding K4); Example '
              'ex_shorthand_not_checked is the witness']}
